@@ -507,10 +507,14 @@ def s_partial(s):
 
 
 def bounded(s):
+    """within the exactness bounds, and every expression has a tree the model can receive (sympy turns e.g. x / (y - y)
+    into zoo*x or nan when the expression object is built: such stacks are discarded)"""
     try:
         s_partial(s)
+        for e in s_exprs(s):
+            canon(e)
         return True
-    except OverflowError:
+    except (OverflowError, ValueError, RuntimeError):
         return False
 
 
@@ -887,7 +891,7 @@ def gen_cases(rng, tier, ctx):
         ops = rnd_ops(rng, s, rng.randint(4, 14))
         cases.append({'kind': 'hist', 'scope': s, 'ops': ops, 'src': 'malformed' if malformed else 'random'})
     if tier == 'thorough':
-        cases.extend(family_names(3, third=fam_layers()[:6] + fam_layers()[9:11] + fam_layers()[18:21]))
+        cases.extend(family_names(3, third=fam_layers()[:5] + fam_layers()[9:10] + fam_layers()[18:20]))
     else:
         cases.extend(family_names(2, thin=4))
     if tier == 'thorough':
